@@ -3,8 +3,9 @@
 Oracles (all written here, none of the dynamic-programming, traceback or
 gap-merging code of cogent3 is used by them):
 
-* content: rows of equal length, no all-gap column, degapped rows equal the
-  inputs (a contiguous part of them for local alignment);
+* content: rows of equal length, degapped rows equal the inputs (a
+  contiguous part of them for local alignment); a pairwise result must be
+  a path (no column that is a gap in both rows);
 * own-model optimality: the pair-HMM *model* (state directions, transition
   matrix, emission score arrays) is read from the ``PairHMM`` object the
   aligner constructed; the harness scores the returned path with its own
@@ -17,14 +18,15 @@ gap-merging code of cogent3 is used by them):
   equal score, and the Hirschberg path also rescoring to the maximum;
 * reference-based: the projection of the multiple alignment onto
   (reference, row), all-gap columns removed, is the pairwise alignment;
-* progressive: content clause, own-model optimality of every
-  sequence-vs-sequence node, full DP vs Hirschberg.
+* progressive: content clause; every node's pair-HMM (sequence or
+  sub-alignment children, predecessor lists read from the alignables) is
+  maximised by an independent forward recursion and the node's traceback is
+  rescored; full DP vs Hirschberg.
 """
 
 from __future__ import annotations
 
 import contextlib
-import math
 
 from hypothesis import strategies as st
 
@@ -55,8 +57,10 @@ ASSUMPTIONS = [
     "local alignment: the returned rows must be a contiguous part of each input; any occurrence of that part is accepted when rescoring",
     "pairwise_to_multiple is driven only with pairwise alignments reachable by the classic aligner (no insertion column adjacent to a deletion column, no all-gap column, >= 1 aligned column)",
     "align_to_ref 'longest' is only used when the longest sequence is unique",
-    "progressive alignment: DNA models, guide tree with positive branch lengths; optimality is asserted only at nodes joining two sequences; "
+    "progressive alignment: DNA models (HKY85, F81, JC69, TN93), guide tree with positive branch lengths covering exactly the sequences; "
+    "each node is judged on the pair-HMM and predecessor graph it was given (so a node is checked against its own inputs even if an earlier node differed); "
     "node scores of the full-DP and the Hirschberg run are compared only when both runs return the same alignment",
+    "multiple alignments are not required to be free of all-gap columns (not part of the property text)",
     "the legacy pure-python kernel py_calc_rows is not compared (it is not reachable from any aligner and not covered by the suite)",
 ]
 
@@ -96,6 +100,10 @@ class Model:
         self.n = len(self.xi) - 2
         self.m = len(self.yi) - 2
         self.both_seqs = bool(ep.pair.both_seqs)
+        # predecessor positions of every position (sequences: [i-1]; sub-alignments: a partial order graph)
+        self.px = [[int(p) for p in pre] for pre in ep.pair.children[0]]
+        self.py = [[int(p) for p in pre] for pre in ep.pair.children[1]]
+        self.kinds = tuple("seq" if type(c).__name__ == "AlignableSeq" else "aln" for c in ep.pair.children)
         self.by_dir = {}
         for st_, b, dx, dy in self.states:
             self.by_dir.setdefault((dx, dy), []).append(st_)
@@ -217,6 +225,69 @@ class Model:
                     if c > best:
                         best = c
         return best
+
+
+def best_forward(model):
+    """global maximum by a forward recursion that follows predecessor lists (works for sub-alignments)"""
+    n, m = model.n, model.m
+    logT, END = model.logT, model.END
+    ids = [0] + [st_ for st_, _, _, _ in model.states]
+    F = {(0, 0): {s: (0.0 if s == 0 else NEG) for s in ids}}
+    for i in range(0, n + 1):
+        for j in range(0, m + 1):
+            if i == 0 and j == 0:
+                continue
+            cell = {0: NEG}
+            for st_, b, dx, dy in model.states:
+                v = NEG
+                if (dx and i == 0) or (dy and j == 0):
+                    cell[st_] = NEG
+                    continue
+                for pi in model.px[i] if dx else [i]:
+                    for pj in model.py[j] if dy else [j]:
+                        src = F.get((pi, pj))
+                        if src is None:
+                            continue
+                        for ps in ids:
+                            c = src[ps] + logT[ps][st_]
+                            if c > v:
+                                v = c
+                cell[st_] = v + model.em(st_, i, j) if v > NEG else NEG
+            F[i, j] = cell
+    best = NEG
+    for pi in model.px[n + 1]:
+        for pj in model.py[m + 1]:
+            src = F.get((pi, pj))
+            if src is None:
+                continue
+            for ps in ids:
+                c = src[ps] + logT[ps][END]
+                if c > best:
+                    best = c
+    return best
+
+
+def traceback_path(model, tb):
+    """([(state, i, j)], problem) from a cogent3 TrackBack: every step must follow a predecessor edge"""
+    path = []
+    pi = pj = 0
+    for st_, posn, _ in tb.tlist:
+        st_ = int(st_)
+        i, j = int(posn[0]), int(posn[1])
+        if st_ not in model.dirs:
+            return None, f"unknown state {st_}"
+        _, dx, dy = model.dirs[st_]
+        if not (0 <= i <= model.n and 0 <= j <= model.m):
+            return None, f"position ({i},{j}) outside ({model.n},{model.m})"
+        okx = (pi in model.px[i]) if dx else (pi == i)
+        oky = (pj in model.py[j]) if dy else (pj == j)
+        if not (okx and oky):
+            return None, f"step ({pi},{pj}) -> ({i},{j}) in state {st_} follows no predecessor edge"
+        path.append((st_, i, j))
+        pi, pj = i, j
+    if pi not in model.px[model.n + 1] or pj not in model.py[model.m + 1]:
+        return None, f"path stops at ({pi},{pj}), not at an end of ({model.n},{model.m})"
+    return path, ""
 
 
 @contextlib.contextmanager
@@ -466,8 +537,7 @@ def exec_pair(case) -> Soft:
 
     # maximum of the aligner's own model
     best = model.best(local)
-    limit_paths = 9000 if not local else 0
-    use_enum = (delannoy(n, m) <= limit_paths) if not local else (n * m <= 25)
+    use_enum = (n * m <= 25) if local else (delannoy(n, m) <= 9000)
     if use_enum:
         ebest, nbest, count = model.enumerate_best(local)
         evals += count
@@ -497,7 +567,7 @@ def exec_pair(case) -> Soft:
     if not local and n >= 3:
         hl = case.get("hl", 0)
         limit = 0 if hl == 0 else max(1, ((n + 2) * (m + 2) * len(model.logT)) // 2)
-        s.cls("hirschberg:all-levels" if limit == 0 else "hirschberg:top-level")
+        s.cls("hirschberg:limit-0" if limit == 0 else "hirschberg:limit-half")
         obs2 = observe_pair(s, "hirschberg", fn, s1, s2, S, d, e, limit)
         evals += 1
         if obs2 is not None:
@@ -558,15 +628,18 @@ def _scoring_spec(draw, mt, letters):
     return {"kind": "matrix", "letters": letters, "vals": vals, "dm": draw(st.integers(-2, 12)), "dx": draw(st.integers(-12, 4))}
 
 
-def _pair_case(draw, lo, hi):
+def _pair_case(draw, lengths):
     mt = draw(st.sampled_from(["dna", "dna", "protein"]))
     letters = _letters(draw, mt)
-    rel = draw(st.sampled_from(["identical", "unrelated", "substring", "mutated", "mutated"]))
-    t1 = _text(draw, letters, lo, hi)
+    rel = draw(st.sampled_from(["identical", "unrelated", "substring", "mutated", "mutated", "mutated"]))
+    n = draw(st.sampled_from(lengths))
+    hi = max(lengths)
+    t1 = _text(draw, letters, n, n)
     if rel == "identical":
         t2 = t1
     elif rel == "unrelated":
-        t2 = _text(draw, letters, max(1, lo // 2), hi)
+        k = draw(st.sampled_from(lengths))
+        t2 = _text(draw, letters, k, k)
     elif rel == "substring":
         a = draw(st.integers(0, len(t1) - 1))
         b = draw(st.integers(a + 1, len(t1)))
@@ -581,8 +654,8 @@ def _pair_case(draw, lo, hi):
         "s2": t2,
         "rel": rel,
         "S": _scoring_spec(draw, mt, letters),
-        "d": draw(st.integers(1, 20)),
-        "e": draw(st.integers(1, 10)) / 2,
+        "d": draw(st.sampled_from([1, 1, 2, 2, 3, 4, 6, 9, 12, 20])),
+        "e": draw(st.sampled_from([0.5, 0.5, 1, 1, 1.5, 2, 3, 5])),
         "local": draw(st.sampled_from([False, False, True])),
         "hl": draw(st.sampled_from([0, 0, 1])),
     }
@@ -590,12 +663,12 @@ def _pair_case(draw, lo, hi):
 
 @st.composite
 def brute_cases(draw):
-    return _pair_case(draw, 1, draw(st.sampled_from([1, 2, 3, 4, 5, 5, 6, 6, 7])))
+    return _pair_case(draw, [1, 2, 3, 3, 4, 4, 5, 5, 6, 6, 7])
 
 
 @st.composite
 def long_cases(draw):
-    return _pair_case(draw, 8, draw(st.sampled_from([12, 20, 30, 60])))
+    return _pair_case(draw, [8, 10, 12, 16, 20, 30, 45, 60])
 
 
 # ============================================================= merge check
@@ -645,9 +718,6 @@ def check_multiple(s, rows, ref_name, pairs, inputs):
         okc &= s.eq(rows[name].replace("-", ""), text, "content/degapped", f"row {name} of {rows}")
     if not okc:
         return
-    L = lens.pop()
-    allgap = [k for k in range(L) if all(r[k] == "-" for r in rows.values())]
-    s.check(not allgap, "content/all-gap-column", f"columns {allgap} of {rows}")
     for name, (rr, orow) in pairs.items():
         got = project(rows, ref_name, name)
         s.eq(got, (rr, orow), "keeps-pairwise", f"projection of result {rows} onto ({ref_name},{name})")
@@ -825,10 +895,6 @@ def _prog_content(s, sig, rows, seqs):
     ok = s.check(len({len(v) for v in rows.values()}) == 1, f"{sig}/content/equal-length", f"{rows}")
     for n, t in seqs.items():
         ok &= s.eq(rows[n].replace("-", ""), t, f"{sig}/content/degapped", f"row {n} of {rows}")
-    if ok:
-        L = len(next(iter(rows.values())))
-        allgap = [k for k in range(L) if all(r[k] == "-" for r in rows.values())]
-        ok &= s.check(not allgap, f"{sig}/content/all-gap-column", f"columns {allgap} of {rows}")
     return ok
 
 
@@ -838,6 +904,37 @@ def _viterbi_results(hmm):
     for flags, res in hmm.results.items():
         if getattr(flags, "viterbi", False) and isinstance(res, tuple) and len(res) == 2:
             out.append((flags, float(res[0]), res[1]))
+    return out
+
+
+def check_nodes(s, sig, hmms, full_dp):
+    """own-model optimality of every node of a progressive run -> [(kind, reported score)]"""
+    out = []
+    for idx, h in enumerate(hmms):
+        vres = _viterbi_results(h)
+        if not s.check(len(vres) == 1, f"{sig}/node/one-viterbi-result", f"node {idx}: {len(vres)} viterbi results"):
+            out.append((None, None))
+            continue
+        flags, score, tb = vres[0]
+        model = Model(h, flags)
+        kind = "-".join(sorted(model.kinds))
+        s.cls(f"node:{kind}")
+        best = best_forward(model)
+        if model.both_seqs:
+            other = model.best(False)
+            if abs(other - best) > 1e-9 * max(1.0, abs(best)):
+                raise HarnessError(f"forward recursion {best} != backward recursion {other}")
+        out.append((kind, score))
+        if full_dp:
+            s.close(score, best, f"{sig}/node:{kind}/score-is-maximum", f"node {idx} ({model.n}x{model.m}) reported vs best path of own model", rtol=1e-9, atol=1e-9)
+        path, why = traceback_path(model, tb)
+        if not s.check(path is not None, f"{sig}/node:{kind}/traceback-is-a-path", f"node {idx}: {why}; {tb}"):
+            continue
+        ps = model.score_path(path, False)
+        s.check(ps <= best + 1e-9 * max(1.0, abs(best)), f"{sig}/node:{kind}/harness-max-too-low", f"path {ps} beats harness maximum {best}")
+        s.close(ps, best, f"{sig}/node:{kind}/returned-path-is-optimal", f"node {idx} ({model.n}x{model.m}) rescored traceback {tb} vs maximum", rtol=1e-9, atol=1e-9)
+        if full_dp:
+            s.close(ps, score, f"{sig}/node:{kind}/score-of-returned-path", f"node {idx} rescored traceback vs reported", rtol=1e-9, atol=1e-9)
     return out
 
 
@@ -852,52 +949,26 @@ def exec_prog(case) -> Soft:
     rows, hmms = a
     okc = _prog_content(s, "full-dp", rows, seqs)
     s.check(len(hmms) == k - 1, "full-dp/one-hmm-per-node", f"{len(hmms)} PairHMM objects for {k} sequences")
-    evals = 1
-    # own-model optimality at nodes that join two sequences
-    for h in hmms:
-        for flags, score, tb in _viterbi_results(h):
-            model = Model(h, flags)
-            if not model.both_seqs:
-                continue
-            best = model.best(False)
-            evals += 1
-            s.cls("cherry-checked")
-            s.close(score, best, "cherry/score-is-maximum", f"node of sizes {model.n}x{model.m}", rtol=1e-9, atol=1e-9)
-            path, i, j, good = [], 0, 0, True
-            for st_, posn, dd in tb.tlist:
-                st_ = int(st_)
-                if st_ not in model.dirs:
-                    good = False
-                    break
-                _, dx, dy = model.dirs[st_]
-                i += dx
-                j += dy
-                path.append((st_, i, j))
-            if s.check(good and i == model.n and j == model.m, "cherry/traceback-covers-inputs", f"traceback ends at ({i},{j}) of ({model.n},{model.m})"):
-                s.close(model.score_path(path, False), score, "cherry/score-of-returned-path", "rescored traceback vs reported", rtol=1e-9, atol=1e-9)
+    na = check_nodes(s, "full-dp", hmms, True)
+    evals = 1 + len(hmms)
     if okc:
         gap = any("-" in r for r in rows.values())
         s.cls("gapped" if gap else "ungapped")
         s.nontrivial = gap and k >= 3
     # linear space
     b = _prog_run(s, "hirschberg", case, 0)
-    evals += 1
     if b is not None:
         hrows, hh = b
+        evals += 1 + len(hh)
         _prog_content(s, "hirschberg", hrows, seqs)
+        nb = check_nodes(s, "hirschberg", hh, False)
         same = hrows == rows
         s.cls("hirschberg:same-alignment" if same else "hirschberg:other-alignment")
-        sa = [[sc for _, sc, _ in _viterbi_results(h)] for h in hmms]
-        sb = [[sc for _, sc, _ in _viterbi_results(h)] for h in hh]
-        if same and len(sa) == len(sb) and all(len(x) == 1 for x in sa) and all(len(x) == 1 for x in sb):
-            for idx, (x, y) in enumerate(zip(sa, sb)):
-                s.close(y[0], x[0], "hirschberg/score-equals-full-dp", f"node {idx} of {len(sa)}", rtol=1e-9, atol=1e-9)
-        # nodes that join two sequences see the same inputs in both runs
-        ca = [x[0] for h, x in zip(hmms, sa) if len(x) == 1 and Model(h).both_seqs]
-        cb = [x[0] for h, x in zip(hh, sb) if len(x) == 1 and Model(h).both_seqs]
-        if len(ca) == len(cb):
-            for x, y in zip(ca, cb):
-                s.close(y, x, "hirschberg/cherry-score-equals-full-dp", "node joining two sequences", rtol=1e-9, atol=1e-9)
+        if same and len(na) == len(nb):
+            # same alignment => every node saw the same inputs in both runs
+            for idx, ((ka, x), (kb, y)) in enumerate(zip(na, nb)):
+                if x is not None and y is not None and ka == kb:
+                    s.close(y, x, f"hirschberg/node:{ka}/score-equals-full-dp", f"node {idx} of {len(na)}", rtol=1e-9, atol=1e-9)
     s.evals = evals
     return s
 
@@ -927,11 +998,11 @@ def prog_cases(draw):
 
 
 SUBS = [
-    Sub("brute", exec_pair, strategy=brute_cases(), quick=640, thorough=64000, shards_quick=16, weight=3.0),
-    Sub("pair", exec_pair, strategy=long_cases(), quick=320, thorough=32000, shards_quick=16, weight=4.0),
+    Sub("brute", exec_pair, strategy=brute_cases(), quick=960, thorough=64000, shards_quick=16, weight=3.0),
+    Sub("pair", exec_pair, strategy=long_cases(), quick=400, thorough=32000, shards_quick=16, weight=4.0),
     Sub("merge", exec_merge, strategy=merge_cases(), quick=1600, thorough=160000, shards_quick=8, weight=1.0),
-    Sub("ref", exec_ref, strategy=ref_cases(), quick=240, thorough=24000, shards_quick=8, weight=2.0),
-    Sub("progressive", exec_prog, strategy=prog_cases(), quick=96, thorough=9600, shards_quick=8, weight=5.0),
+    Sub("ref", exec_ref, strategy=ref_cases(), quick=320, thorough=24000, shards_quick=8, weight=2.0),
+    Sub("progressive", exec_prog, strategy=prog_cases(), quick=128, thorough=9600, shards_quick=8, weight=5.0),
 ]
 
 KNOWN_PREDICATES = {}
@@ -944,10 +1015,10 @@ META = {
     "itself and compares the reported score with the maximum over all paths (every path enumerated up to about 9000 paths, "
     "an independent recursion beyond), and repeats the global alignment with the Hirschberg limit lowered. Reference-based "
     "merging is driven with generated classic-reachable pairwise alignments and through align_to_ref, and judged by projecting "
-    "the result back onto each (reference, row) pair. Progressive alignment is judged on content, on optimality of its "
-    "sequence-vs-sequence nodes and on agreement of full and linear-space dynamic programming. Exploration, not proof.",
+    "the result back onto each (reference, row) pair. Progressive alignment is judged on content, on optimality of every node's traceback for that node's own "
+    "pair-HMM (forward recursion over the predecessor graph) and on agreement of full and linear-space dynamic programming. Exploration, not proof.",
     "level_note": "Trusts the harness' path scorer/enumerator (about 120 lines) and numpy's log. The model arrays are read from "
     "cogent3 objects, so an error in how emission arrays are built from the substitution scores is only seen through the ratio "
-    "relations stated in the assumptions. Alignment-of-alignment nodes of progressive alignment are not checked for optimality.",
+    "relations stated in the assumptions. Alignment-of-alignment nodes are judged on the predecessor lists their alignables expose (the partial order graph itself is not re-derived from the sub-alignment).",
     "design_ref": "DESIGN.md section 1, C18",
 }
